@@ -1,0 +1,16 @@
+// SPDX-FileCopyrightText: 2026 The Pion community <https://pion.ly>
+// SPDX-License-Identifier: MIT
+
+//go:build verif
+
+package sctp
+
+// verifOnCreate, when set by a verification harness, observes every association
+// right after it has been constructed (before any goroutine is started).
+var verifOnCreate func(*Association) //nolint:gochecknoglobals
+
+func verifCreated(a *Association) {
+	if verifOnCreate != nil {
+		verifOnCreate(a)
+	}
+}
